@@ -435,7 +435,11 @@ func extractPlan(p *Prog) (*scanPlan, error) {
 			plan.PlusSuffix = sfx
 		}
 	}
-	if sf := p.Func(p.ExpPkg, "simplifyLicense"); sf != nil {
+	sf := p.Func(p.ExpPkg, "simplifyLicense")
+	if sf == nil {
+		sf = p.Func(p.ExpPkg, "getLicenseRange") // the strip written in place in the family lookup
+	}
+	if sf != nil {
 		for _, b := range sf.Blocks {
 			for _, in := range b.Instrs {
 				if call, ok := in.(*ssa.Call); ok && call.Call.StaticCallee() != nil {
